@@ -10,11 +10,21 @@ pub trait MmioDev {
 }
 pub struct Window { pub id: u32, pub vbase: usize, pub size: usize, pub dev: Box<dyn MmioDev> }
 thread_local! { pub static WINDOWS: RefCell<Vec<Window>> = RefCell::new(vec![]); }
+/// Accesses logged since the last `clear()`. A wait loop of the code under test that never ends (e.g. a mutated
+/// `Drop` polling a status register) must not grow the event log without bound: beyond LOG_CAP accesses are still
+/// served but no longer logged (one ledger violation records it); the tier's time limit then reports the hang.
+pub const LOG_CAP: u64 = 1_000_000;
+thread_local! { static LOGGED: RefCell<u64> = RefCell::new(0); }
+fn log_ev(e: Ev) {
+    let n = LOGGED.with(|c| { let mut c = c.borrow_mut(); *c += 1; *c });
+    if n <= LOG_CAP { hal::push(e); }
+    else if n == LOG_CAP + 1 { hal::violate(format!("more than {} MMIO accesses in one case: logging stopped", LOG_CAP)); }
+}
 
 pub fn register(id: u32, vbase: usize, size: usize, dev: Box<dyn MmioDev>) {
     WINDOWS.with(|w| w.borrow_mut().push(Window { id, vbase, size, dev }));
 }
-pub fn clear() { WINDOWS.with(|w| w.borrow_mut().clear()); }
+pub fn clear() { WINDOWS.with(|w| w.borrow_mut().clear()); LOGGED.with(|c| *c.borrow_mut() = 0); }
 pub fn with_dev<R>(id: u32, f: impl FnOnce(&mut dyn MmioDev) -> R) -> Option<R> {
     WINDOWS.with(|w| { let mut w = w.borrow_mut(); w.iter_mut().find(|x| x.id == id).map(|x| f(x.dev.as_mut())) })
 }
@@ -26,18 +36,18 @@ fn access(addr: usize, width: u8, write: bool, val: u64) -> u64 {
             if addr >= win.vbase && addr + width as usize <= win.vbase + win.size {
                 let off = (addr - win.vbase) as u64;
                 if write {
-                    hal::push(Ev::Mmio { region: win.id, write: true, off, width, val });
+                    log_ev(Ev::Mmio { region: win.id, write: true, off, width, val });
                     win.dev.write(off, width, val);
                     return 0;
                 } else {
                     let v = win.dev.read(off, width);
-                    hal::push(Ev::Mmio { region: win.id, write: false, off, width, val: v });
+                    log_ev(Ev::Mmio { region: win.id, write: false, off, width, val: v });
                     return v;
                 }
             }
         }
         hal::violate(format!("MMIO {} of width {} at {:#x} outside every mapped window", if write {"write"} else {"read"}, width, addr));
-        hal::push(Ev::Mmio { region: u32::MAX, write, off: addr as u64, width, val });
+        log_ev(Ev::Mmio { region: u32::MAX, write, off: addr as u64, width, val });
         0
     })
 }
